@@ -17,6 +17,9 @@ func Workers() int {
 	if s := os.Getenv("VERIF_SHARDS"); s != "" {
 		fmt.Sscan(s, &n)
 	}
+	if os.Getenv("VERIF_INPROC") != "" {
+		n = 1 // hooks and package-level knobs of the code under test are process-global
+	}
 	if n < 1 {
 		n = 1
 	}
@@ -27,13 +30,43 @@ func Workers() int {
 // reported as a violation with signature "panic:<where>" unless the case function recovers itself. Stops at the
 // recorder's deadline and marks the run non-exhaustive (exit code unaffected).
 func Run(r *ev.Rec, n int64, f func(i int64, l *ev.Local)) {
-	var next int64
-	var done int64
-	var wg sync.WaitGroup
 	block := int64(16)
 	if n > 1<<20 {
 		block = 1024
 	}
+	if n < 256 {
+		block = 1
+	}
+	if r.Shards > 1 || os.Getenv("VERIF_SHARD") != "" {
+		// shard process: single goroutine, blocks dealt round-robin over the shards
+		l := r.Local()
+		defer l.Merge()
+		var done int64
+		for lo := int64(r.Shard) * block; lo < n; lo += block * int64(r.Shards) {
+			if r.Expired() {
+				r.Exhaustive = false
+				r.Extra["deadline_hit"] = true
+				break
+			}
+			hi := lo + block
+			if hi > n {
+				hi = n
+			}
+			for i := lo; i < hi; i++ {
+				runOne(r, i, l, f)
+			}
+			done += hi - lo
+		}
+		if v, ok := r.Extra["cases_completed_sum"].(float64); ok {
+			r.Extra["cases_completed_sum"] = v + float64(done)
+		} else {
+			r.Extra["cases_completed_sum"] = float64(done)
+		}
+		return
+	}
+	var next int64
+	var done int64
+	var wg sync.WaitGroup
 	var expired atomic.Bool
 	for w := 0; w < Workers(); w++ {
 		wg.Add(1)
@@ -65,9 +98,8 @@ func Run(r *ev.Rec, n int64, f func(i int64, l *ev.Local)) {
 	if expired.Load() {
 		r.Exhaustive = false
 		r.Extra["deadline_hit"] = true
-		r.Extra["cases_completed"] = atomic.LoadInt64(&done)
-		r.Extra["cases_total"] = n
 	}
+	r.Extra["cases_completed_sum"] = float64(atomic.LoadInt64(&done))
 }
 
 func runOne(r *ev.Rec, i int64, l *ev.Local, f func(i int64, l *ev.Local)) {
